@@ -165,6 +165,7 @@ type runOut struct {
 	nops     int
 	lineOp   []int // spec-mode line index -> index of the executed op it belongs to
 	cutOp    int   // first op that builds on a discarded root (-1: none): not comparable across backends
+	blineOp  []int // badger-mode line index -> index of the executed op it belongs to
 }
 
 type backendRun struct {
@@ -595,6 +596,9 @@ func runBackend(kind string, ops []string, ht *hashTable, withNodeLog bool) *run
 		for len(out.lineOp) < len(out.lines) {
 			out.lineOp = append(out.lineOp, out.nops)
 		}
+		for len(out.blineOp) < len(out.blines) {
+			out.blineOp = append(out.blineOp, out.nops)
+		}
 		out.nops++
 		if b.nlog != nil {
 			b.out.blines = append(b.out.blines, b.badgerObsLines()...)
@@ -673,6 +677,7 @@ func judge(ops []string, outs map[string]*runOut, res *hlib.Result, count bool, 
 	// 1. the badger bookkeeping model as an exact oracle of the badger backend; its notes name
 	//    the bookkeeping rule behind every unreadable root / failed prune it predicts.
 	notes := map[string]string{}
+	firstUnsafeOp := -1 // first step of the badger run outside the restriction of badger_readable_inv_partial
 	if d := os.Getenv("VERIF_DUMP"); d != "" {
 		_ = os.WriteFile(d+".badger", []byte(strings.Join(outs["badger"].blines, "\n")+"\n"), 0o644)
 		_ = os.WriteFile(d+".ops", []byte(strings.Join(ops, "\n")+"\n"), 0o644)
@@ -687,6 +692,12 @@ func judge(ops []string, outs map[string]*runOut, res *hlib.Result, count bool, 
 				vs = append(vs, verdict{"divergence", sigOf("badger-model", ans[i]), fmt.Sprintf("badger model at line %d `%s`: %s", i, o.blines[i], ans[i])})
 			}
 			for i, a := range ans {
+				if strings.HasPrefix(a, "ok unsafe=") && i < len(o.blineOp) && (firstUnsafeOp < 0 || o.blineOp[i] < firstUnsafeOp) {
+					firstUnsafeOp = o.blineOp[i]
+					if count && res != nil {
+						res.Count("restriction:first-unsafe:" + strings.TrimPrefix(a, "ok unsafe="))
+					}
+				}
 				if strings.HasPrefix(a, "ok note=") {
 					f := strings.Fields(o.blines[i])
 					key := strings.Join(f[:len(f)-1], " ") // "readable v t h" / "prune v"
@@ -755,6 +766,17 @@ func judge(ops []string, outs map[string]*runOut, res *hlib.Result, count bool, 
 			if i < len(o.lineOp) && o.lineOp[i] < firstBadOp {
 				firstBadOp = o.lineOp[i]
 			}
+			// inside the restriction of badger_readable_inv_partial no reported root may be unreadable:
+			// a failure before the first unsafe step is NOT one of the known findings
+			if k == "badger" && badgerModelEnabled && (strings.Contains(sig, "unreadable") || strings.Contains(sig, "prune-result-mismatch")) {
+				op := -1
+				if i < len(o.lineOp) {
+					op = o.lineOp[i]
+				}
+				if firstUnsafeOp < 0 || op < firstUnsafeOp {
+					sig = "badger:inside-restriction:" + strings.TrimPrefix(sig, "badger:")
+				}
+			}
 			if seenSig[sig] {
 				continue
 			}
@@ -780,6 +802,23 @@ func judge(ops []string, outs map[string]*runOut, res *hlib.Result, count bool, 
 				case "reopen":
 					res.Count(k + ":reopen")
 				}
+			}
+		}
+	}
+	if count && res != nil && (only == "" || only == "badger") && badgerModelEnabled {
+		if firstUnsafeOp < 0 {
+			res.Count("restriction:history-inside")
+		} else {
+			res.Count("restriction:history-outside")
+			damaged := false
+			for _, v := range vs {
+				if strings.HasPrefix(v.sig, "badger:") && (strings.Contains(v.sig, "unreadable") || strings.Contains(v.sig, "prune-result-mismatch")) {
+					damaged = true
+				}
+			}
+			if !damaged {
+				// an unsafe step whose victim was never observed (e.g. it was pruned or discarded first)
+				res.Count("restriction:history-outside-without-observed-damage")
 			}
 		}
 	}
